@@ -76,6 +76,8 @@ struct Lock<'a> {
     c: usize,
     stats: &'a mut Stats,
     ops_done: usize,
+    /// a write_all / write! failed: from here on the two inner writers may legitimately differ
+    failed_all: bool,
 }
 
 impl Lock<'_> {
@@ -140,7 +142,12 @@ impl Lock<'_> {
                     format!("{what}: the stream under test returned {} but the reference returned {}", ra.show(), rb.show()),
                 ));
             }
-            if let Some((ha, hb)) = obs {
+            // after a failed write_all / write! the amount written is unspecified (and with a
+            // Display impl that keeps going it depends on the formatting strategy): results were
+            // compared above, bytes are only compared while the history is still on its feet
+            let failed_all = matches!(ra, OpResult::Err(_)) && !matches!(applied_kind(&op, buf), Applied::Write | Applied::Vectored | Applied::Flush);
+            self.failed_all |= failed_all;
+            if let (Some((ha, hb)), false) = (obs, failed_all) {
                 let sa = ha.st();
                 let sb = hb.st();
                 if sa.accepted != sb.accepted {
@@ -242,7 +249,7 @@ pub fn execute(t: &Trace, stats: &mut Stats, record: bool) -> Outcome {
     } else {
         stats.probe("config_faulty");
     }
-    let mut lk = Lock { t, record, log: Vec::new(), hash: Fnv::default(), c: 0, stats, ops_done: 0 };
+    let mut lk = Lock { t, record, log: Vec::new(), hash: Fnv::default(), c: 0, stats, ops_done: 0, failed_all: false };
     lk.hash.str(&t.surface);
 
     let wa = SimWriter::new(t.faults.clone(), record);
@@ -295,7 +302,7 @@ pub fn execute(t: &Trace, stats: &mut Stats, record: bool) -> Outcome {
                 // the writer handed back is the one that received everything delivered so far
                 let sa = ha.st();
                 let sb = hb.st();
-                let delivered = &sb.accepted;
+                let delivered = if lk.failed_all { &sa.accepted[..sa.accepted.len().saturating_sub(SENTINEL.len())] } else { &sb.accepted[..] };
                 if !sa.accepted.starts_with(delivered) {
                     return Err(viol(
                         "into-inner-lost-bytes",
